@@ -78,7 +78,7 @@ def check(pid, tier, regen=False):
         raise C.MachineryError("no truth queries were recorded")
     exact = C.load_set(f"{pid}-exact.txt")
     new_exact = set()
-    n_checked = n_known = 0
+    n_checked = n_known = n_so = 0
     for _, ev, clause, _x in bad:
         n_checked += 1
         claims = [[q["f"], q["via"], "cached" if q["cached"] else "computed"] for q in ev["qs"]
@@ -89,7 +89,8 @@ def check(pid, tier, regen=False):
               "history_index": ev["gi"], "assignments": "sampled" if ev["sampled"] else "exhaustive", "sig": s,
               "deterministic_stream": ev["det"]}
         if clause.endswith("overclaims"):
-            so = z3_opinion(ev, clause)
+            n_so += 1
+            so = z3_opinion(ev, clause) if n_so <= 60 else "not-run (cap 60)"
             pl["second_opinion"] = so
             if so == "spec-suspect":
                 raise C.MachineryError("spec (TLC) rejects a truth claim that Z3 proves: " + json.dumps(pl)[:2000])
